@@ -16,45 +16,55 @@ from .report import MachineryError
 
 
 def validate(module, traces, invariants, env_invariants=("EnvLegal",), constants=None, timeout=1800,
-             workers=16, lenkey="ev", envname="TRACES", extra_env=None, heap="8g"):
+             workers=16, lenkey="ev", envname="TRACES", extra_env=None, heap="8g", max_failures=8):
     """traces: list of JSON-able dicts, each with a list under `lenkey`.
-    returns (failures, stats): failures = list of dict(tid (0-based), clause, l, vars)"""
+    returns (failures, stats): failures = list of dict(tid (0-based), clause, l, vars).
+    TLC stops at the first violated clause; the failing trace is then set aside and the rest is
+    validated again (at most max_failures times), so every failing trace is named but a monitor
+    that stays false after its first failure cannot flood the output (as `-continue` would)."""
     scratch = tempfile.mkdtemp(prefix="verif-t-", dir=os.environ.get("VERIF_SCRATCH", "/var/tmp"))
     try:
-        path = os.path.join(scratch, "traces.json")
-        with open(path, "w") as f:
-            json.dump(traces, f, separators=(",", ":"))
         lines = ["INIT Init", "NEXT Next", "CHECK_DEADLOCK FALSE"]
         for k, v in (constants or {}).items():
             lines.append("CONSTANT %s = %s" % (k, v))
         for inv in list(env_invariants) + list(invariants):
             lines.append("INVARIANT %s" % inv)
-        env = {envname: path}
-        env.update(extra_env or {})
-        res = tlcmod.run(module, "\n".join(lines) + "\n", env=env, timeout=timeout, scratch=scratch,
-                         workers=workers, extra=("-continue",), heap=heap)
-        if res.errors:
-            raise MachineryError("TLC failed in trace validation: " + " | ".join(res.errors[:6]) + "\n" + res.out[-2000:])
+        cfg = "\n".join(lines) + "\n"
+        live = list(range(len(traces)))
         failures = []
-        seen = set()
-        for name, tr in res.all:
-            if not tr:
+        states = transitions = 0
+        wall = 0.0
+        while live:
+            path = os.path.join(scratch, "traces.json")
+            with open(path, "w") as f:
+                json.dump([traces[i] for i in live], f, separators=(",", ":"))
+            env = {envname: path}
+            env.update(extra_env or {})
+            res = tlcmod.run(module, cfg, env=env, timeout=timeout, scratch=scratch, workers=workers, heap=heap)
+            wall += res.wall
+            if res.errors:
+                raise MachineryError("TLC failed in trace validation: " + " | ".join(res.errors[:6]) + "\n" + res.out[-2000:])
+            if res.violated:
+                last = res.trace[-1]["vars"] if res.trace else {}
+                tid = last.get("tid")
+                if not isinstance(tid, int):
+                    raise MachineryError("trace validation: violation of %s without a parsable state" % res.violated)
+                real = live[tid - 1]
+                if res.violated in env_invariants:
+                    raise MachineryError("harness drove a stimulus the environment specification forbids: "
+                                         "trace %d step %s" % (real, last.get("l")))
+                failures.append({"tid": real, "clause": res.violated, "l": last.get("l"), "vars": last})
+                live = [i for i in live if i != real]
+                if len(failures) >= max_failures:
+                    break
                 continue
-            last = tr[-1]["vars"]
-            tid = last.get("tid")
-            key = (tid, name)
-            if key in seen:
-                continue
-            seen.add(key)
-            failures.append({"tid": tid - 1, "clause": name, "l": last.get("l"), "vars": last})
-        for f in failures:
-            if f["clause"] in env_invariants:
-                raise MachineryError("harness drove a stimulus the environment specification forbids: trace %d step %s"
-                                     % (f["tid"], f["l"]))
-        expect = sum(len(t[lenkey]) + 1 for t in traces)
-        if res.distinct != expect:
-            raise MachineryError("trace validation consumed %d states, expected %d (a trace stopped early)"
-                                 % (res.distinct, expect))
-        return failures, {"states": res.distinct, "transitions": res.generated, "wall": res.wall}
+            expect = sum(len(traces[i][lenkey]) + 1 for i in live)
+            if res.distinct != expect:
+                raise MachineryError("trace validation consumed %d states, expected %d (a trace stopped early)"
+                                     % (res.distinct, expect))
+            states += res.distinct
+            transitions += res.generated
+            break
+        return failures, {"states": states, "transitions": transitions, "wall": wall}
     finally:
         shutil.rmtree(scratch, ignore_errors=True)
